@@ -178,6 +178,10 @@ pub(crate) struct ReadyPipeQueue<T: Send + 'static> {
   pub(crate) pipes: Arc<RwLock<HashMap<usize, Arc<PipeSlot<T>>>>>,
   pub(crate) ready_rx: AsyncReceiver<Arc<PipeSlot<T>>>,
   ready_tx: AsyncSender<Arc<PipeSlot<T>>>,
+  /// Set by `close()`. Closing `ready_tx` alone only disconnects the ready list once every
+  /// `ReadyPipeSender` clone is gone, so a blocked `pop()` is released through `close_notify`.
+  closed: AtomicBool,
+  close_notify: tokio::sync::Notify,
 }
 
 impl<T: Send + 'static> ReadyPipeQueue<T> {
@@ -189,6 +193,8 @@ impl<T: Send + 'static> ReadyPipeQueue<T> {
       pipes: Arc::new(RwLock::new(HashMap::new())),
       ready_rx: rx,
       ready_tx: tx,
+      closed: AtomicBool::new(false),
+      close_notify: tokio::sync::Notify::new(),
     }
   }
 
@@ -237,10 +243,32 @@ impl<T: Send + 'static> ReadyPipeQueue<T> {
 
   pub async fn pop(&self) -> Result<(usize, T), ZmqError> {
     loop {
-      let slot = match self.ready_rx.recv().await {
+      let slot = match self.ready_rx.try_recv() {
         Ok(s) => s,
-        Err(RecvError::Disconnected) => {
+        Err(TryRecvError::Disconnected) => {
           return Err(ZmqError::InvalidState("ready queue closed"));
+        }
+        Err(TryRecvError::Empty) => {
+          // About to park: arm the close notification before re-checking the flag so that a
+          // close() racing with this call cannot be missed.
+          let closed = self.close_notify.notified();
+          tokio::pin!(closed);
+          closed.as_mut().enable();
+          if self.closed.load(Ordering::Acquire) {
+            return Err(ZmqError::InvalidState("ready queue closed"));
+          }
+          tokio::select! {
+            biased;
+            r = self.ready_rx.recv() => match r {
+              Ok(s) => s,
+              Err(RecvError::Disconnected) => {
+                return Err(ZmqError::InvalidState("ready queue closed"));
+              }
+            },
+            _ = &mut closed => {
+              return Err(ZmqError::InvalidState("ready queue closed"));
+            }
+          }
         }
       };
 
@@ -350,8 +378,10 @@ impl<T: Send + 'static> ReadyPipeQueue<T> {
   }
 
   pub fn close(&self) {
+    self.closed.store(true, Ordering::Release);
     self.pipes.write().clear();
     self.ready_tx.close();
+    self.close_notify.notify_waiters();
   }
 }
 
